@@ -89,3 +89,6 @@ Fixpoint py_listcomp (l : list pv) (cond elt : pv -> res pv) : res (list pv) :=
 (* any(l) / all(l) on a fully built list *)
 Definition py_any (v : pv) : res pv := bind (elems v) (fun l => Ok (PBool (existsb truthy l))).
 Definition py_all (v : pv) : res pv := bind (elems v) (fun l => Ok (PBool (forallb truthy l))).
+
+Definition py_isinstance_str (a : pv) : res pv := Ok (PBool (match a with PStr _ => true | _ => false end)).
+Definition py_isinstance_list (a : pv) : res pv := Ok (PBool (match a with PList _ => true | _ => false end)).
